@@ -1,19 +1,83 @@
 package pubkeyConverter
 
+import (
+	"bytes"
 
-func Verif_C48_roundtrip() {
-	n := 2 * (1 + verifChoice("halfLen", 2)) // 2 or 4 bytes
-	conv, _ := NewBech32PubkeyConverter(n)
+	"github.com/btcsuite/btcutil/bech32"
+)
+
+// (a) bit regrouping of the bech32 form, all 2^256 addresses at once: 8->5 bits with padding and back.
+func Verif_C48_regrouping() {
+	n := verifParam("addrLen")
+	x := verifBytes("x", n)
+	five, err := bech32.ConvertBits(x, 8, 5, true)
+	verifAssert(err == nil, "8->5 conversion succeeds")
+	for _, v := range five {
+		verifAssert(v < 32, "5-bit groups")
+	}
+	back, err := bech32.ConvertBits(five, 5, 8, false)
+	verifAssert(err == nil, "5->8 conversion succeeds")
+	verifAssert(bytes.Equal(back, x), "regrouping round-trips")
+	verifReach("end")
+}
+
+// (b) shape of the text for every address: prefix, separator, length, alphabet (the checksum
+// characters are computed by the real code over the symbolic data; only their alphabet is asserted).
+func Verif_C48_textShape() {
+	n := verifParam("addrLen")
+	conv, err := NewBech32PubkeyConverter(n)
+	verifAssert(err == nil, "converter created")
 	x := verifBytes("x", n)
 	s := conv.Encode(x)
-	verifAssert(len(s) > 0, "encodes")
-	y, err := conv.Decode(s)
-	verifAssert(err == nil, "decodes")
-	if err == nil {
-		verifAssert(len(y) == n, "length")
-		for i := range x {
-			verifAssert(y[i] == x[i], "same bytes")
+	groups := (8*n + 4) / 5
+	verifAssert(len(s) == 4+groups+6, "text length = prefix + separator + data groups + 6 checksum characters")
+	if len(s) > 4 {
+		verifAssert(s[:4] == "erd1", "text starts with the erd prefix and separator")
+		const charset = "qpzry9x8gf2tvdw0s3jn54khce6mua7l"
+		for i := 4; i < len(s); i++ {
+			in := false
+			for j := 0; j < len(charset); j++ {
+				in = in || s[i] == charset[j]
+			}
+			verifAssert(in, "only bech32 alphabet characters")
 		}
 	}
+	verifReach("end")
+}
+
+// (c) one concrete address through the whole text round trip (a reachability witness for Decode, the
+// BCH checksum identity over symbolic data is outside the claim), and rejection of a text with another
+// prefix / another decoded length.
+func Verif_C48_rejects() {
+	n := verifParam("addrLen")
+	conv, _ := NewBech32PubkeyConverter(n)
+	x := make([]byte, n)
+	for i := range x {
+		x[i] = byte(91*i + 5)
+	}
+	y, err := conv.Decode(conv.Encode(x))
+	verifAssert(err == nil && bytes.Equal(x, y), "a concrete address round-trips through the text form")
+	five, _ := bech32.ConvertBits(x, 8, 5, true)
+	other, _ := bech32.Encode("bc", five)
+	_, err = conv.Decode(other)
+	verifAssert(err != nil, "text with another prefix is rejected")
+	short, _ := bech32.ConvertBits(x[:n-2], 8, 5, true)
+	shortText, _ := bech32.Encode("erd", short)
+	_, err = conv.Decode(shortText)
+	verifAssert(err != nil, "text decoding to another length is rejected")
+	verifReach("end")
+}
+
+// (d) hex form: round trip for all byte strings of the configured length, wrong length rejected.
+func Verif_C48_hex() {
+	n := verifParam("addrLen")
+	conv, _ := NewHexPubkeyConverter(n)
+	x := verifBytes("x", n)
+	s := conv.Encode(x)
+	verifAssert(len(s) == 2*n, "two hex digits per byte")
+	y, err := conv.Decode(s)
+	verifAssert(err == nil && bytes.Equal(x, y), "hex text round-trips")
+	_, err = conv.Decode(s[2:])
+	verifAssert(err != nil, "hex text of another length is rejected")
 	verifReach("end")
 }
